@@ -396,9 +396,10 @@ def check_property(pid, tier, scratch, write_baseline=False):
                     bfail.setdefault((u, q), None)
     for u, fns in sorted(always.items()):
         qs = set(fns)
-        if "*" in qs:
-            qs.discard("*")
-            qs |= {fn for (uu, fn) in bfail if uu == u}
+        qs.discard("*")
+        # every failing input the unit's harness reported counts, also when the harness files it under a more specific
+        # function name than the one it was asked for (e.g. "weak_shape" -> "Bind::weak_shape_impl")
+        qs |= {fn for (uu, fn) in bfail if uu == u and bfail[(uu, fn)]}
         for q in sorted(qs):
             fl = bfail.get((u, q))
             if fl:
